@@ -10,7 +10,7 @@ CONSTANTS
   FnFilter = "all"
   Shapes = {"plain", "star"}
   MaxSess = 3
-  FixProtoCache = FALSE
+  FixProtoCache = TRUE
   Bug = "none"
 INVARIANT EmitLib
 INVARIANT EmitDone
